@@ -56,7 +56,7 @@ var flattenStream = (&StreamSpec{
 			}
 			if all {
 				for i := range fs {
-					for _, cl := range []string{":non-canonical-ref:", ":not-idempotent:", ":second-error:", ":dangling-ref:"} {
+					for _, cl := range []string{":non-canonical-ref:", ":not-idempotent:", ":second-error:", ":dangling-ref:", ":not-normal-form:"} {
 						if strings.Contains(fs[i].Signature, cl) {
 							fs[i].Signature = "flatten:pointer-to-shared-schema-left-in-place"
 						}
@@ -67,7 +67,7 @@ var flattenStream = (&StreamSpec{
 		// known cause (finding D10): two operations without operationId whose derived key ToGoName(method+" "+path) collides
 		if idlessKeyCollision(get(c.In, "bundle", "root")) {
 			for i := range fs {
-				for _, cl := range []string{":inline-complex:", ":nondeterministic:", ":not-idempotent:", ":second-error:"} {
+				for _, cl := range []string{":inline-complex:", ":nondeterministic:", ":not-idempotent:", ":second-error:", ":not-normal-form:"} {
 					if strings.Contains(fs[i].Signature, cl) {
 						fs[i].Signature = "flatten:idless-operations-with-colliding-derived-key"
 					}
@@ -76,7 +76,7 @@ var flattenStream = (&StreamSpec{
 		}
 		// known cause: a path item that has parameters but no operation gets no name for its inline schemas (finding D13)
 		for i := range fs {
-			if strings.HasPrefix(fs[i].Signature, "flatten:inline-complex:") && onlyOperationlessPaths(c, out) {
+			if (strings.HasPrefix(fs[i].Signature, "flatten:inline-complex:") || strings.HasPrefix(fs[i].Signature, "flatten:not-normal-form:")) && onlyOperationlessPaths(c, out) {
 				fs[i].Signature = "flatten:inline-complex:path-level-parameter-of-path-without-operation"
 			}
 		}
